@@ -128,12 +128,19 @@ class PeeringScenario(Scenario):
                     rec: dict[str, Any] = {'priority': 1000, 'lifetime': LIFETIME, 'lastseen': iso(env.now)}
                 elif kind == 'stale':
                     rec = {'priority': 1000, 'lifetime': LIFETIME, 'lastseen': iso(env.now - 10 * LIFETIME)}
+                elif kind == 'west':
+                    # a live record written by a tool in another time zone: the same instant, spelled with a UTC offset
+                    tz = datetime.timezone(datetime.timedelta(hours=-5))
+                    rec = {'priority': 1000, 'lifetime': LIFETIME, 'lastseen': (EPOCH + datetime.timedelta(seconds=env.now)).astimezone(tz).isoformat()}
+                elif kind == 'east-stale':
+                    tz = datetime.timezone(datetime.timedelta(hours=5))
+                    rec = {'priority': 1000, 'lifetime': LIFETIME, 'lastseen': (EPOCH + datetime.timedelta(seconds=env.now - 10 * LIFETIME)).astimezone(tz).isoformat()}
                 elif kind == 'odd':
                     rec = {'priority': 1000, 'lastseen': iso(env.now), 'flavour': 'unknown-field', 'namespace': None}
                 else:
                     raise ValueError(kind)
                 w.merge(CLUSTER_PEERING, None, 'default', {'status': {f'ghost-{kind}': rec}}, actor='foreign')
-                env.log('ghost', which=kind, until=env.now + LIFETIME if kind != 'stale' else env.now - 9 * LIFETIME)
+                env.log('ghost', which=kind, until=env.now + LIFETIME if kind not in ('stale', 'east-stale') else env.now - 9 * LIFETIME)
             elif action == 'create':
                 w.create(KEX, 'ns', args[0], {'spec': {'x': 1}})
             elif action == 'edit':
@@ -358,7 +365,7 @@ class PeeringScenario(Scenario):
 
 def histories(depth: int) -> list[list[tuple]]:
     alphabet: list[tuple] = [('start', 'B'), ('start', 'C'), ('stop', 'A'), ('stop', 'B'), ('kill', 'A'), ('kill', 'B'), ('start', 'A'),
-                             ('ghost', 'high'), ('ghost', 'stale'), ('ghost', 'odd')]
+                             ('ghost', 'high'), ('ghost', 'stale'), ('ghost', 'odd'), ('ghost', 'west'), ('ghost', 'east-stale')]
     out = []
     for d in range(1, depth + 1):
         for combo in itertools.product(alphabet, repeat=d):
